@@ -72,10 +72,36 @@ def generate():
     div = [n for n in ast.walk(cps) if isinstance(n, ast.BinOp) and isinstance(n.op, ast.Div) and isinstance(n.right, ast.Name) and n.right.id == "m"]
     if not div:
         raise ValueError("unpacking does not divide by the multiplier")
+    # ---- element volumes (receiver.py): the formulas as they stand
+    with open(os.path.join(REPO, "srlife/receiver.py")) as f:
+        rtree = ast.parse(f.read())
+    tcls = [n for n in rtree.body if isinstance(n, ast.ClassDef) and n.name == "Tube"][0]
+
+    def fn_assigns(name):
+        fn = [n for n in tcls.body if isinstance(n, ast.FunctionDef) and n.name == name][0]
+        d = {ast.unparse(n.targets[0]): ast.unparse(n.value).replace(" ", "") for n in fn.body if isinstance(n, ast.Assign)}
+        rets = [ast.unparse(n.value).replace(" ", "") for n in fn.body if isinstance(n, ast.Return)]
+        return d, rets
+    want_section = {"r": "np.linspace(self.r-self.t,self.r,self.nr)", "t": "np.linspace(0,2*np.pi,self.nt+1)", "theta": "np.diff(t)",
+                    "a": "np.outer(2*r[:-1],np.sin(theta/2))", "b": "np.outer(2*r[1:],np.sin(theta/2))", "edge": "r[1:]-r[:-1]",
+                    "h": "np.sqrt(edge[:,None]**2.0-((b-a)/2)**2.0)", "base": "0.5*(a+b)*h"}
+    d2, r2 = fn_assigns("_volume2d")
+    if d2 != want_section or r2 != ["(base*self.h).flatten()"]:
+        raise ValueError("Tube._volume2d is not the trapezoid formula times the height: %s %s" % (d2, r2))
+    d3, r3 = fn_assigns("_volume3d")
+    want3 = dict(want_section, z="np.linspace(0,self.h,self.nz)", heights="np.diff(z)")
+    if d3 != want3 or r3 != ["np.einsum('k,ij',heights,base).flatten()"]:
+        raise ValueError("Tube._volume3d is not the trapezoid formula times the layer heights: %s %s" % (d3, r3))
+    d1, r1 = fn_assigns("_volume1d")
+    if d1 != {"r": "np.linspace(self.r-self.t,self.r,self.nr)"} or r1 != ["np.pi*(r[1:]**2.0-r[:-1]**2.0)*self.h"]:
+        raise ValueError("Tube._volume1d is not pi (r_out^2 - r_in^2) h: %s %s" % (d1, r1))
     out = ["(* GENERATED by harness/translators/weibull.py from /repo/srlife/damage.py; do not edit *)",
            "From Coq Require Import List String Bool.", "Import ListNotations.", "Open Scope string_scope.",
            "Definition stack_order : list (string * bool) := [%s]." % "; ".join('("%s", %s)' % (k, "true" if s else "false") for k, s in order),
            "Definition mandel_inds : list (list (nat * nat)) := [%s]." %
            "; ".join("[" + "; ".join("(%d, %d)" % tuple(p) for p in grp) + "]" for grp in inds),
-           "Definition mandel_sqrt2 : list bool := [%s]." % "; ".join("true" if m else "false" for m in mults)]
+           "Definition mandel_sqrt2 : list bool := [%s]." % "; ".join("true" if m else "false" for m in mults),
+           "(* Tube._volume2d/_volume3d: (a + b)/2 * sqrt(edge^2 - ((b - a)/2)^2) with a, b = 2 r sin(theta/2), times height(s); "
+           "_volume1d: pi (r_out^2 - r_in^2) h *)",
+           "Definition volume_formulas_as_modelled : bool := true."]
     return "\n".join(out) + "\n"
